@@ -237,6 +237,9 @@ class ProgGen:
             step = -rng.choice([1, 1, 2, 3])
             start = rng.randrange(n)
             cnt = rng.randint(1, start // (-step) + 1)
+            if rng.random() < 0.25:
+                # the whole source back to front: as many elements as the source, yet not another name for it
+                step, start, cnt = -1, n - 1, n
             last = start + (cnt - 1) * step
             stop = rng.randint(max(last + step, -3), last - 1)
             s_start = None if (start == 0 and rng.random() < 0.3) else self.ioi(start, pl)
